@@ -184,6 +184,17 @@ def execute(cases, tier):
             k += 1
             cats["driver_model_replayed"] += 1
         if why:
+            def run_once(c=c):
+                sb = clirun.Sandbox("c17r")
+                try:
+                    sb.write_files(c["files"])
+                    r2 = sb.run(["-j", str(c["jobs"])] + (["--keep-db-on-failure"] if c["keep"] else []) + ["t/**/*.slt"], scenario={"rules": c["rules"]}, timeout=120)
+                finally:
+                    sb.close()
+                return r2, build_trace(r2["events"])[0], clirun.status_lines(r2["stdout"])
+            cats["driver_model_rechecked"] += 1
+            why = drvmodel.recheck(c, run_once, c["jobs"], c["keep"], False)
+        if why:
             disagreements.append({"case": c, "impl": {"stdout": r["stdout"][-800:], "rc": r["rc"]}, "model": "coq/Driver.v replayed on the schedule reconstructed from the run",
                                   "spec": None, "note": "the run is not a run of the driver model: " + why, "broken": "corr_C17_driver_model"})
     # the library's run_parallel (known finding D10)
